@@ -178,6 +178,11 @@ func RoundTrip(o *Chain, lg *sim.Log, parent int, run string, pointArgs map[stri
 			map[string]interface{}{"o": po[k].Digest, "c": pc[k].Digest, "on": po[k].N, "cn": pc[k].N, "sym": d.Sym, "keys": d.Keys,
 				"store": store, "prefix": pre, "kv": kvStatus(kv, store, pre)})
 	}
+	// id spaces: live ids and counter of every id-numbered record family, on both chains
+	so, sc := IdSpaces(o.App, o.ReadCtx()), IdSpaces(cp.App, cp.ReadCtx())
+	for _, name := range unionKeysAbs(so, sc) {
+		lg.Add(rt, run, "IdSpace", map[string]interface{}{"comp": name}, nil, map[string]interface{}{"o": so[name], "c": sc[name], "sym": absSym(so[name], sc[name])})
+	}
 	if !withConts {
 		return rt
 	}
@@ -360,6 +365,17 @@ func balancesByClass(f *Fork, labels map[string]string) map[string]string {
 	out["users"], _ = digestJSON(users)
 	out["others"], _ = digestJSON(others)
 	return out
+}
+
+func unionKeysAbs(a, b map[string]Abs) []string {
+	m := map[string]bool{}
+	for k := range a {
+		m[k] = true
+	}
+	for k := range b {
+		m[k] = true
+	}
+	return setList(m)
 }
 
 func unionKeysS(a, b map[string]string) []string {
